@@ -344,3 +344,347 @@ func sharedReqNotMutated(c *an.Ctx, rule string) {
 
 // reqMutationAllowed lists handlers that modify the request on purpose.
 var reqMutationAllowed = map[string]string{}
+
+// sharedAtomicSnapshot checks the single-snapshot discipline for the atomically
+// published pointer in field `field` of struct type typ: a function that reads
+// the published value reads it at most once on any path (directly or through
+// methods of the same receiver that read it), so everything it computes comes
+// from one version.  The unit is one method of the owning type.  A second Load on some path, or a Load inside a loop, may
+// observe a different version after a concurrent publication.
+func sharedAtomicSnapshot(c *an.Ctx, rule, typ, field string, minReaders int) {
+	isLoadOf := func(call ssa.CallInstruction) bool {
+		n := an.CalleeName(call)
+		if !(strings.Contains(n, "sync/atomic.") && strings.HasSuffix(n, ").Load")) {
+			return false
+		}
+		args := call.Common().Args
+		if len(args) == 0 {
+			return false
+		}
+		recv := args[0]
+		// the receiver is the field's value (a *atomic.Pointer) or its address
+		if u, ok := recv.(*ssa.UnOp); ok && u.Op == token.MUL {
+			recv = u.X
+		}
+		t, f, _, ok := an.FieldOf(recv)
+		return ok && t == typ && f == field
+	}
+	// summaries: repository functions that (transitively, through calls to other
+	// functions) read the published value
+	reads := map[*ssa.Function]bool{}
+	for changed := true; changed; {
+		changed = false
+		for _, fn := range c.AllFns {
+			if reads[fn] || fn.Blocks == nil {
+				continue
+			}
+			// the unit of consistency is one method of the owning type; callers
+			// that combine several method calls are outside this rule
+			if fn.Signature.Recv() == nil || an.TypeName(fn.Signature.Recv().Type()) != typ {
+				continue
+			}
+			for _, call := range an.Calls(fn) {
+				if isLoadOf(call) {
+					reads[fn] = true
+				} else if cal := an.StaticCallee(call); cal != nil && reads[cal] {
+					reads[fn] = true
+				}
+				if reads[fn] {
+					changed = true
+					break
+				}
+			}
+		}
+	}
+	n := 0
+	var fns []*ssa.Function
+	for fn := range reads {
+		fns = append(fns, fn)
+	}
+	sort.Slice(fns, func(i, j int) bool { return an.FnKey(fns[i]) < an.FnKey(fns[j]) })
+	for _, fn := range fns {
+		if c.IsTestFile(fn.Pos()) {
+			continue
+		}
+		k := an.FnKey(fn)
+		events := map[ssa.Instruction]bool{}
+		for _, call := range an.Calls(fn) {
+			if isLoadOf(call) {
+				events[call] = true
+			} else if cal := an.StaticCallee(call); cal != nil && reads[cal] {
+				events[call] = true
+			}
+		}
+		c.Analysed(k)
+		n++
+		key := fmt.Sprintf("%s reads %s.%s once", k, typ, field)
+		if w := an.PathEvents(fn, events, 1, nil); w != nil {
+			var where []string
+			for _, in := range w {
+				where = append(where, c.Pos(in.Pos()))
+			}
+			c.Bad(rule, key, w[len(w)-1].Pos(), "the atomically published value is read more than once on one path (%s): a publication between the reads makes the result mix two versions", strings.Join(where, ", "))
+		} else {
+			c.Ok(rule, key, fn.Pos(), "at most one read of the published value on every path (%d read sites)", len(events))
+		}
+	}
+	if n < minReaders {
+		c.Und(rule, fmt.Sprintf("%s.%s readers", typ, field), token.NoPos, "only %d functions read the published value, expected at least %d: the anchor no longer resolves", n, minReaders)
+	}
+}
+
+// ---- injective packing of cache-key components ----
+
+type bitSeg struct {
+	comp   ssa.Value
+	lo, hi int // bit range [lo, hi) the component occupies in the value
+}
+
+func intWidth(t types.Type) int {
+	b, ok := t.Underlying().(*types.Basic)
+	if !ok {
+		return 0
+	}
+	switch b.Kind() {
+	case types.Bool, types.Uint8, types.Int8:
+		return 8
+	case types.Uint16, types.Int16:
+		return 16
+	case types.Uint32, types.Int32:
+		return 32
+	case types.Uint64, types.Int64, types.Uint, types.Int, types.Uintptr:
+		return 64
+	}
+	return 0
+}
+
+// bitLayout computes where the bits of each atomic component end up in integer
+// value v built by widening conversions, constant left shifts and OR/XOR/ADD.
+// problem is non-empty when two components overlap or bits may be lost.
+func bitLayout(v ssa.Value, depth int) (segs []bitSeg, problem string) {
+	if depth > 12 {
+		return []bitSeg{{v, 0, intWidth(v.Type())}}, ""
+	}
+	switch x := v.(type) {
+	case *ssa.Const:
+		return nil, ""
+	case *ssa.ChangeType:
+		return bitLayout(x.X, depth+1)
+	case *ssa.Convert:
+		inner, p := bitLayout(x.X, depth+1)
+		if p != "" {
+			return nil, p
+		}
+		w := intWidth(x.Type())
+		if w == 0 || intWidth(x.X.Type()) == 0 {
+			return []bitSeg{{v, 0, w}}, ""
+		}
+		for _, s := range inner {
+			if s.hi > w {
+				return nil, fmt.Sprintf("a conversion to %s drops bits %d..%d of a key component", x.Type(), w, s.hi)
+			}
+		}
+		return inner, ""
+	case *ssa.BinOp:
+		switch x.Op {
+		case token.SHL:
+			k, ok := an.ConstInt(x.Y)
+			if !ok {
+				break
+			}
+			inner, p := bitLayout(x.X, depth+1)
+			if p != "" {
+				return nil, p
+			}
+			w := intWidth(x.Type())
+			for i := range inner {
+				inner[i].lo += int(k)
+				inner[i].hi += int(k)
+				if inner[i].hi > w {
+					return nil, fmt.Sprintf("a shift by %d pushes a key component out of the %d-bit value", k, w)
+				}
+			}
+			return inner, ""
+		case token.OR, token.XOR, token.ADD:
+			a, p := bitLayout(x.X, depth+1)
+			if p != "" {
+				return nil, p
+			}
+			b, p := bitLayout(x.Y, depth+1)
+			if p != "" {
+				return nil, p
+			}
+			for _, s := range a {
+				for _, t := range b {
+					if s.lo < t.hi && t.lo < s.hi {
+						return nil, fmt.Sprintf("two key components are combined with %s into overlapping bits %d..%d and %d..%d: distinct component pairs map to the same value", x.Op, s.lo, s.hi, t.lo, t.hi)
+					}
+				}
+			}
+			return append(a, b...), ""
+		case token.AND, token.SHR, token.REM, token.QUO, token.AND_NOT:
+			return nil, fmt.Sprintf("a key component passes through the lossy operation %s", x.Op)
+		}
+	}
+	return []bitSeg{{v, 0, intWidth(v.Type())}}, ""
+}
+
+// sharedKeyPacking checks that the fixed-width part of a cache key is an
+// injective packing of its components: every write into the key buffer goes to
+// a byte range disjoint from every other write, and the written value keeps
+// every bit of each component it carries in a separate position.
+func sharedKeyPacking(c *an.Ctx, rule, fnKey string, minWrites int) {
+	fn := c.Fn(fnKey)
+	if fn == nil {
+		c.Und(rule, fnKey+" key packing", token.NoPos, "anchor not found")
+		return
+	}
+	c.Analysed(fnKey)
+	isByteBuf := func(v ssa.Value) bool {
+		switch x := v.(type) {
+		case *ssa.Alloc:
+			if arr, ok := an.Deref(x.Type()).Underlying().(*types.Array); ok {
+				return intWidth(arr.Elem()) == 8
+			}
+		case *ssa.MakeSlice:
+			if sl, ok := x.Type().Underlying().(*types.Slice); ok {
+				return intWidth(sl.Elem()) == 8
+			}
+		}
+		return false
+	}
+	type region struct {
+		buf    ssa.Value
+		lo, hi int // hi < 0: open-ended (variable-length tail)
+		pos    token.Pos
+		what   string
+	}
+	var regions []region
+	bad := func(pos token.Pos, key, format string, args ...any) {
+		c.Bad(rule, fnKey+" "+key, pos, format, args...)
+	}
+	constOr := func(v ssa.Value, def int) (int, bool) {
+		if v == nil {
+			return def, true
+		}
+		k, ok := an.ConstInt(v)
+		return int(k), ok
+	}
+	nWrites := 0
+	an.Instrs(fn, func(in ssa.Instruction) {
+		switch x := in.(type) {
+		case *ssa.Store:
+			ia, ok := x.Addr.(*ssa.IndexAddr)
+			if !ok || !isByteBuf(ia.X) {
+				return
+			}
+			nWrites++
+			i, ok := constOr(ia.Index, 0)
+			if !ok {
+				bad(x.Pos(), "byte store", "a key byte is written at a non-constant position")
+				return
+			}
+			regions = append(regions, region{ia.X, i, i + 1, x.Pos(), fmt.Sprintf("byte %d", i)})
+			segs, p := bitLayout(x.Val, 0)
+			if p != "" {
+				bad(x.Pos(), fmt.Sprintf("byte %d value", i), "%s", p)
+				return
+			}
+			for _, s := range segs {
+				if s.hi > 8 {
+					bad(x.Pos(), fmt.Sprintf("byte %d value", i), "a component of %d bits is stored into one byte", s.hi)
+					return
+				}
+			}
+			c.Ok(rule, fmt.Sprintf("%s byte %d value", fnKey, i), x.Pos(), "one byte carrying %d component(s) in disjoint bits", len(segs))
+		case *ssa.Call:
+			name := an.CalleeName(x)
+			var w int
+			switch {
+			case strings.HasSuffix(name, "ndian).PutUint16"):
+				w = 2
+			case strings.HasSuffix(name, "ndian).PutUint32"):
+				w = 4
+			case strings.HasSuffix(name, "ndian).PutUint64"):
+				w = 8
+			case name == "builtin.copy":
+				w = -1
+			default:
+				return
+			}
+			args := x.Call.Args
+			dst, val := args[len(args)-2], args[len(args)-1]
+			sl, ok := dst.(*ssa.Slice)
+			var buf ssa.Value
+			lo := 0
+			if ok {
+				buf = sl.X
+				var okLo bool
+				lo, okLo = constOr(sl.Low, 0)
+				if !okLo {
+					if isByteBuf(buf) {
+						nWrites++
+						bad(x.Pos(), "write at "+c.Pos(x.Pos()), "a key component is written at a non-constant offset")
+					}
+					return
+				}
+				if hi, okHi := constOr(sl.High, -1); okHi && hi >= 0 && w > 0 && hi-lo < w {
+					// PutUintN panics on a short slice; not an injectivity question
+					_ = hi
+				}
+			} else {
+				buf = dst
+			}
+			if !isByteBuf(buf) {
+				return
+			}
+			nWrites++
+			if w < 0 {
+				regions = append(regions, region{buf, lo, -1, x.Pos(), fmt.Sprintf("bytes %d.. (variable tail)", lo)})
+				c.Ok(rule, fmt.Sprintf("%s bytes %d.. value", fnKey, lo), x.Pos(), "variable-length tail copied after the fixed-width part")
+				return
+			}
+			regions = append(regions, region{buf, lo, lo + w, x.Pos(), fmt.Sprintf("bytes %d..%d", lo, lo+w)})
+			segs, p := bitLayout(val, 0)
+			key := fmt.Sprintf("bytes %d..%d value", lo, lo+w)
+			if p != "" {
+				bad(x.Pos(), key, "%s", p)
+				return
+			}
+			for _, s := range segs {
+				if s.hi > 8*w {
+					bad(x.Pos(), key, "a component reaching bit %d is stored into %d bytes", s.hi, w)
+					return
+				}
+			}
+			c.Ok(rule, fnKey+" "+key, x.Pos(), "%d component(s) in disjoint bits of a %d-bit field", len(segs), 8*w)
+		}
+	})
+	for i, a := range regions {
+		for _, b := range regions[i+1:] {
+			if a.buf != b.buf {
+				continue
+			}
+			// two constant stores to the same byte on different branches are one region
+			if a.lo == b.lo && a.hi == b.hi && a.hi == a.lo+1 {
+				continue
+			}
+			aHi, bHi := a.hi, b.hi
+			if aHi < 0 {
+				aHi = 1 << 30
+			}
+			if bHi < 0 {
+				bHi = 1 << 30
+			}
+			if a.lo < bHi && b.lo < aHi {
+				bad(b.pos, "overlap "+a.what+" / "+b.what, "two key components are written to overlapping bytes (%s at %s and %s at %s): the later write destroys part of the earlier one", a.what, c.Pos(a.pos), b.what, c.Pos(b.pos))
+			}
+		}
+	}
+	if len(regions) > 0 {
+		c.Ok(rule, fnKey+" regions", fn.Pos(), "%d writes into the key buffer checked for pairwise disjoint byte ranges", len(regions))
+	}
+	if nWrites < minWrites {
+		c.Und(rule, fnKey+" key writes", fn.Pos(), "only %d writes into a key buffer found, expected at least %d: the key is built in a way this rule does not recognise", nWrites, minWrites)
+	}
+}
